@@ -5,12 +5,16 @@ import lib, storelib as S, arithlib as A
 from lib import Result, model_call, run_sharded, e_fmt, e_list, Reader, outcome
 
 RULE = ('array shapes up to 3x3 and lengths up to 8, operand formats with n_word<=12, element values from the extremes of the format (all most-negative, all most-positive, alternating) and random codes; '
-        'sum, cumsum, prod, cumprod, dot / matmul (values only), trace, max, min, sort, clip, transpose, diagonal through the NumPy function and the equivalent method, axis None or any valid axis. '
+        'sum, cumsum, prod, cumprod, dot / matmul (values only), trace, max, min, sort, clip, transpose, diagonal through the NumPy function and the equivalent method, axis None or any valid axis; trace and diagonal also with offset in {-2, -1, 1, 2}. '
         'The implementation result is compared with the exact result on the element values (Python integers / rationals), with the documented growth rule, with "no overflow flag", with isinstance(result, Fxp), and with the model (sum, cumsum, prod, dot, trace). '
         'Non-trivial = at least two elements and a non-zero result; distinct by full input.')
 ASSUMPTIONS = ['the NumPy dispatch glue (__array_function__, method wrappers) is exercised by running both call routes; it has no Gallina counterpart', 'matmul goes through the float route with an auto-sized result: only its values are compared']
 
 def clog2(n): return int(math.ceil(math.log2(n))) if n > 1 else 0
+
+def np_diag_idx(shape, off):
+    """(row, column) positions of the diagonal with the given offset of a 2-D array"""
+    return [(i, i + off) for i in range(shape[0]) if 0 <= i + off < shape[1]]
 
 def gen(rng):
     nw = rng.randint(2, 12); s = rng.random() < 0.6; nf = rng.randint(0, nw); lo, hi = S.fmt_bounds(s, nw)
@@ -33,6 +37,9 @@ def gen(rng):
         codes2 = [lo2] * n2 if kk < 0.25 else ([hi2] * n2 if kk < 0.5 else [rng.randint(lo2, hi2) for _ in range(n2)])
         c.update({'f2': [s2, nw2, nf2], 'shape2': list(shape2), 'codes2': codes2})
     if op in ('trace', 'diagonal') and len(shape) != 2: c['op'] = 'sum'; c['axis'] = None
+    if c['op'] in ('trace', 'diagonal') and rng.random() < 0.5:
+        off = rng.choice([-1, 1, -2, 2])         # an off-diagonal (kept only when it is not empty)
+        if len(np_diag_idx(shape, off)) > 0: c['offset'] = off
     # the property's domain: result word <= 53 bits
     if op == 'cumprod' and n * max(nw, abs(nf) + nw) > 53: return gen(rng)
     if op == 'prod' and (n if axis is None else shape[axis]) * nw > 53: return gen(rng)
@@ -75,7 +82,9 @@ def run_cases(cases, res):
                     z = np.matmul(x, y)
                 exact = np.dot(arr, arr2) * (lsb * Fraction(2) ** (-nf2))
             elif op == 'trace':
-                z = x.trace() if meth else np.trace(x); exact = np.trace(arr) * lsb; want_fmt = (s, clog2(min(shape)) + nw, nf)
+                off = c.get('offset', 0)
+                z = (x.trace(offset=off) if meth else np.trace(x, offset=off)) if off else (x.trace() if meth else np.trace(x))
+                exact = np.trace(arr, offset=off) * lsb; want_fmt = (s, clog2(len(np_diag_idx(shape, off))) + nw, nf)
             elif op == 'max':
                 z = x.max(axis=axis) if meth else np.max(x, axis=axis); exact = np.max(arr, axis=axis) * lsb; want_fmt = (s, nw, nf)
             elif op == 'min':
@@ -91,7 +100,9 @@ def run_cases(cases, res):
                 else: z = x.transpose(tuple(ax)) if meth else np.transpose(x, tuple(ax))
                 exact = np.transpose(arr, ax if ax is None else tuple(ax)) * lsb; want_fmt = (s, nw, nf)
             elif op == 'diagonal':
-                z = x.diagonal() if meth else np.diagonal(x); exact = np.diagonal(arr) * lsb; want_fmt = (s, nw, nf)
+                off = c.get('offset', 0)
+                z = (x.diagonal(offset=off) if meth else np.diagonal(x, offset=off)) if off else (x.diagonal() if meth else np.diagonal(x))
+                exact = np.diagonal(arr, offset=off) * lsb; want_fmt = (s, nw, nf)
             obs = {'is_fxp': isinstance(z, fx.Fxp)}
             if obs['is_fxp']:
                 obs.update({'fmt': A.fmt_of(z), 'vals': [Fraction(t) / Fraction(2) ** z.n_frac for t in lib.codes_of(z)], 'shape': list(np.asarray(z.val).shape), 'status': lib.status3(z),
@@ -110,7 +121,7 @@ def run_cases(cases, res):
             elif op == 'dot': mreq = [111] + e_fmt(s, nw, nf) + e_fmt(*c['f2']) + e_list(c['codes']) + e_list(c['codes2'])
         if op == 'trace' and len(shape) == 2:
             # the model of trace: fxp_sum over the main diagonal, growth by the number of diagonal elements
-            k = min(shape); diag = [c['codes'][i * shape[1] + i] for i in range(k)]
+            idx = np_diag_idx(shape, c.get('offset', 0)); k = len(idx); diag = [c['codes'][i * shape[1] + j] for i, j in idx]
             mreq = [110, 0] + e_fmt(s, nw, nf) + [k] + e_list(diag)
         reqs.append(mreq)
     outs = iter(model_call([m for m in reqs if m is not None]))
